@@ -14,12 +14,12 @@ func GenC13(r *RNG) *SrvPlan {
 	maxHdr := Pick(r, 256, 4096, 0)
 	p.Srv = SrvCfg{MaxConcurrentStreams: mcs, PingInterval: -1, MaxRequestBodySize: maxBody, MaxHeaderListSize: maxHdr}
 	p.Peer = PeerCfg{InitialWindow: 1 << 20, MaxFrameSize: -1, HeaderTableSize: -1, AutoWindow: true, ConnWindowBoost: 1 << 24, LinkCap: Pick(r, 0, 4096)}
-	kind := Pick(r, "rapid-reset", "half-open", "priority-idle", "continuation-flood", "continuation-long-field", "over-sent-body", "over-declared-body", "mis-declared-body", "ping-flood", "settings-flood", "mixed")
+	kind := Pick(r, "rapid-reset", "half-open", "priority-idle", "continuation-flood", "continuation-long-field", "continuation-long-field-refused", "over-sent-body", "over-declared-body", "mis-declared-body", "ping-flood", "settings-flood", "mixed")
 	n := Pick(r, 40, 150, 400)
 	if k := os.Getenv("VERIF_C13_KIND"); k != "" {
 		kind = k // development aid: pin the attack kind
 	}
-	if kind == "continuation-long-field" {
+	if kind == "continuation-long-field" || kind == "continuation-long-field-refused" {
 		n = Pick(r, 150, 600, 1500)
 		p.Peer.LinkCap = 0 // its frames are larger than the capped link lets through at once
 	}
@@ -54,6 +54,24 @@ func GenC13(r *RNG) *SrvPlan {
 				addReq(h)
 			} else {
 				l := Lane{Name: fmt.Sprintf("cont%d", rid), After: rid - 1, Offender: kind, Ops: []Op{{Kind: "raw", RawType: FContinuation, RawFlags: 0, RawHex: "00" + strings.Repeat("61", 1) + "01" + "62", LaneRef: 1, Pad: -1, TableSize: -1}}}
+				p.Lanes = append(p.Lanes, l)
+			}
+		case "continuation-long-field-refused":
+			// the same never-ending field, on a stream the server does not serve: every slot is taken by a request whose
+			// handler is held, so the stream that carries the block is refused and its block is only decoded for the sake
+			// of the HPACK table
+			switch {
+			case i < mcs:
+				addReq(hdrs(rid, true))
+			case i == mcs:
+				h := hdrs(rid, false)
+				h.NoEndHdrs = true
+				addReq(h)
+			case i == mcs+1:
+				l := Lane{Name: fmt.Sprintf("cont%d", rid), After: rid - 1, Offender: kind, Ops: []Op{{Kind: "raw", RawType: FContinuation, RawFlags: 0, RawHex: "0001617f81ffff7f", RawLen: 16000, LaneRef: mcs + 1, Pad: -1, TableSize: -1}}}
+				p.Lanes = append(p.Lanes, l)
+			default:
+				l := Lane{Name: fmt.Sprintf("cont%d", rid), After: rid - 1, Offender: kind, Ops: []Op{{Kind: "raw", RawType: FContinuation, RawFlags: 0, RawLen: 16384, LaneRef: mcs + 1, Pad: -1, TableSize: -1}}}
 				p.Lanes = append(p.Lanes, l)
 			}
 		case "continuation-long-field":
@@ -178,6 +196,24 @@ func c13AtQuiescence(w *SrvWorld) *Violation {
 			return &Violation{Property: "C13", Rule: "live-objects", Sig: "live-objects/" + kind + "/" + shortType(st.Name),
 				Detail: fmt.Sprintf("%d live %s objects after a flood of %d frames (%s) with MaxConcurrentStreams=%d: bound %d; the count follows the number of frames, not the limits",
 					st.Live, st.Name, w.opsSent, kind, mcs, bound)}
+		}
+	}
+	// a header block that stays open: what the peer has poured into it, encoded, against four times the limit for the
+	// decoded list (Huffman expands by at most 8/5, an indexed field of one octet stands for more than 32) plus a frame's
+	// worth of slack. Past that the block cannot be within MaxHeaderListSize whatever it holds, and going on taking it in
+	// is buffering or processing by the frame count.
+	if len(w.GoAways) == 0 && !w.PeerEOF && !w.Returned && w.blockOwner != nil {
+		poured := 0
+		for _, l := range w.lanes {
+			for j, op := range l.lane.Ops {
+				if j < l.next && op.Kind == "raw" && op.RawType == FContinuation {
+					poured += len(op.RawHex)/2 + op.RawLen
+				}
+			}
+		}
+		if poured > 4*hdr+65536 {
+			return &Violation{Property: "C13", Rule: "header-block-over-limit-accepted", Sig: "header-block-over-limit-accepted/" + kind,
+				Detail: fmt.Sprintf("%d octets of CONTINUATION frames accepted into one open header block with MaxHeaderListSize=%d and neither GOAWAY nor a close (%s)", poured, hdr, kind)}
 		}
 	}
 	if lim := w.plan.Srv.MaxRequestBodySize; lim > 0 && len(w.GoAways) == 0 {
